@@ -57,7 +57,7 @@ def cases(rng, tier):
         cases.append(("trim " + a.fmt(), "random"))
     return cases
 
-def exhaustive_flag(tier): return True
+EXHAUSTIVE_SLICES = "all automata with 1 state and <=4 rules, and with 2 states and <=3 rules, over {a/0,b/0,g/1,f/2}, every final set (the run as a whole is not exhaustive)"
 
 CORPUS = [
     "trim T 1 5 1 0 7 0",                       # D2: final without rules + unreachable owner: counts equal, sets differ
@@ -97,3 +97,4 @@ LEVEL_NOTE = ("Trusted: Coq kernel, ExtrOcamlBasic extraction, OCaml/C++ glue (p
               "the tie is behavioural on generated inputs (distribution in the evidence). No axioms (Print Assumptions: closed under the global context).")
 TECHNIQUE = "Coq proof of model + verified gate deciders; extracted-model correspondence against libvata on generated automata"
 DESIGN_REF = "DESIGN.md 5/C03"
+READY = True
